@@ -874,6 +874,7 @@ class CPGen(LoopGen):
     def __init__(self, rng, features=(), family='cp/base', unused=False):
         super().__init__(rng, features, family=family, pragma='none', p_const=0.15, max_trip=3)
         self.unused = unused
+        self.straight = family.endswith('/straight')
 
     def cexpr(self):
         rng = self.rng
@@ -937,6 +938,13 @@ class CPGen(LoopGen):
     def stmt(self, d):
         if self.rng.random() < 0.4:
             return self.const_stmt(d)
+        if self.straight:
+            # loop-free programs: the region in which the forward propagation has no known defect
+            for _ in range(50):
+                out = F.Gen.stmt(self, d)
+                if not any(x['s'] in ('do', 'while') for x in F._flat(out)):
+                    return out
+            return [assign(V('k'), self.bounded(op('sum', V('k'), V('n'))))]
         return super().stmt(d)
 
     # ---- helpers with unused dummy arguments
@@ -997,7 +1005,11 @@ class CPGen(LoopGen):
         c1, c2 = rng.randint(0, 6), rng.randint(0, 6)
         use = assign(V(u), self.bounded(op('sum', V(t), V(u))))
         kinds = ['zerotrip', 'carried', 'condassign', 'dynindex', 'loopkill', 'nested-if']
-        if not self.family.endswith(('/base', '/intdiv')) and not self.family.startswith('all-'):
+        if self.straight:
+            # joins of the constant maps of the branches of a conditional: a branch that kills the constant
+            # (input-dependent value), both branches agreeing / disagreeing, ELSE IF chains, nesting
+            kinds = ['condassign', 'nested-if', 'else-kill', 'then-kill', 'elseif-kill', 'both-const', 'else-kill', 'elseif-kill']
+        elif not self.family.endswith(('/base', '/intdiv')) and not self.family.startswith('all-'):
             kinds = ['condassign']       # feature families: their own scenarios (plus one neutral kind)
         if 'call' in self.f and self.helpers:
             kinds += ['call', 'call']
@@ -1031,6 +1043,20 @@ class CPGen(LoopGen):
             mid = [do_('i', N(1), rng.choice([N(2), call('min', V('n'), N(3))]), [assign(V(t), op('sum', V('i'), N(c2)))])]
         elif kind == 'condassign':
             mid = [if_(self.cond(self.int_scalars_noarr), [assign(V(t), N(c2))], inline=rng.random() < 0.5)]
+        elif kind in ('else-kill', 'then-kill'):
+            dyn = [assign(V(t), self.bounded(op('sum', V(rng.choice(['n', 'm'])), N(c2))))]
+            keep = rng.choice([[assign(V(t), N(c2))], [assign(V(t), N(c1))], [assign(V(u), N(c2))]])
+            mid = [if_(self.cond(['n', 'm']), keep if kind == 'else-kill' else dyn, dyn if kind == 'else-kill' else keep)]
+        elif kind == 'elseif-kill':
+            dyn = [assign(V(t), self.bounded(op('sum', V(rng.choice(['n', 'm'])), N(c2))))]
+            bodies = [[assign(V(t), N(c2))], rng.choice([[assign(V(t), N(c2))], [assign(V(u), N(c1))]])]
+            els = dyn
+            if rng.random() < 0.4:
+                bodies[1], els = dyn, rng.choice([[assign(V(t), N(c2))], []])
+            mid = [{'s': 'if', 'conds': [cmp_('>', V('n'), N(rng.randint(0, 2))), cmp_('<', V('m'), N(rng.randint(0, 2)))],
+                    'bodies': bodies, 'els': els}]
+        elif kind == 'both-const':
+            mid = [if_(self.cond(['n', 'm']), [assign(V(t), N(c2))], [assign(V(t), N(rng.choice([c2, c2 + 1])))])]
         elif kind == 'nested-if':
             mid = [if_(V('flag'), [if_(cmp_('>', V('n'), N(1)), [assign(V(t), N(c2))])], [assign(V(u), N(c2))])]
         elif kind == 'dynindex':
@@ -1073,6 +1099,8 @@ class CPGen(LoopGen):
 C32_FAMILIES = {
     # family: (mode, features, unused)
     'cp/base': ('cp', ('twod',), False),
+    'cp/straight': ('cp', ('twod',), False),               # loop-free: assignments, IF / ELSE IF / ELSE, array elements
+    'cp-dce/straight': ('cp-dce', ('twod',), False),
     'cp/intdiv': ('cp', ('twod',), False),                 # integer division kept (simplify treats it as exact)
     'cp/call': ('cp', ('twod', 'call', 'fcall'), False),
     'cp/while': ('cp', ('twod', 'while'), False),
